@@ -100,6 +100,8 @@ type LenProver struct {
 	memoVia  map[*ssa.BasicBlock][]int
 	dbg      map[ssa.Value]string
 	stored   map[*types.Var]bool
+	noEntry  bool
+	useEntry bool
 }
 
 func NewLenProver(p *Prog, fn *ssa.Function) *LenProver {
@@ -516,6 +518,8 @@ func eliminateLocals(t lin, facts []lfact, ok map[string]lin) (lin, []lfact) {
 // condFacts translates an SSA boolean into linear facts, given its truth value.
 func (lp *LenProver) condFacts(cond ssa.Value, truth bool) []lfact {
 	switch x := cond.(type) {
+	case *ssa.Call:
+		return lp.boolHelperFacts(x, truth)
 	case *ssa.UnOp:
 		if x.Op == token.NOT {
 			return lp.condFacts(x.X, !truth)
@@ -873,8 +877,14 @@ func (lp *LenProver) pathFacts(b *ssa.BasicBlock) [][]lfact {
 		r := [][]lfact{{}}
 		if b != lp.fn.Blocks[0] {
 			r = nil // unreachable (e.g. recover block)
+		} else if ef := lp.entryFacts(); ef != nil {
+			r = ef
 		}
 		lp.memo[b] = r
+		lp.memoVia[b] = make([]int, len(r))
+		for i := range lp.memoVia[b] {
+			lp.memoVia[b][i] = -1
+		}
 		return r
 	}
 	var out [][]lfact
@@ -1069,6 +1079,19 @@ func LenSinks(p *Prog, fn *ssa.Function) []*lenSink {
 			}
 			sort.Strings(s.Atoms)
 			s.Proved, s.Facts, s.Failed = lp.ProveAt(b, ins, s.Goals)
+			if !s.Proved {
+				// second chance for an extracted helper: assume what is known at its single call site
+				lp2 := NewLenProver(p, fn)
+				lp2.useEntry = true
+				if lp2.entryFacts() != nil {
+					s2 := rebuildGoals(lp2, ins)
+					if s2 != nil {
+						if ok, facts, failed := lp2.ProveAt(b, ins, s2); ok {
+							s.Proved, s.Facts, s.Failed = true, append(facts, "with the facts of the helper's single call site"), failed
+						}
+					}
+				}
+			}
 			out = append(out, s)
 		}
 	}
@@ -1258,4 +1281,203 @@ func (lp *LenProver) applyStores(d []lfact, blk *ssa.BasicBlock, upto ssa.Instru
 		d = nd
 	}
 	return d
+}
+
+// boolHelperFacts: facts implied by a small first-party predicate returning `truth`, expressed over the
+// caller's values (integer arguments and loads through pointer/struct arguments).
+func (lp *LenProver) boolHelperFacts(call *ssa.Call, truth bool) []lfact {
+	callee := call.Call.StaticCallee()
+	if callee == nil || !lp.p.firstParty(calleePkg(callee)) || len(callee.Blocks) == 0 || len(callee.Blocks) > 12 || lp.depth > 2 {
+		return nil
+	}
+	if b, ok := call.Type().Underlying().(*types.Basic); !ok || b.Kind() != types.Bool {
+		return nil
+	}
+	lp.depth++
+	defer func() { lp.depth-- }()
+	sub := NewLenProver(lp.p, callee)
+	sub.depth = lp.depth
+	suffix := "@" + shortSSAFn(callee)
+	mapAtom := func(a string) (lin, bool) {
+		base := strings.TrimSuffix(a, suffix)
+		if base == a {
+			return lin{}, false
+		}
+		for i, par := range callee.Params {
+			if i >= len(call.Call.Args) {
+				break
+			}
+			arg := call.Call.Args[i]
+			if base == par.Name() && isIntType(par.Type()) {
+				return lp.term(arg), true
+			}
+			// loads through the parameter: "*par", "*(*par.F)", …
+			if strings.Contains(base, par.Name()) && strings.HasPrefix(base, "*") {
+				ca := lp.canonAddr(arg)
+				if ca == "" {
+					// the argument itself is a load (pointer value read from a field): its canonical address
+					if u, ok := arg.(*ssa.UnOp); ok && u.Op == token.MUL {
+						if inner := lp.canonAddr(u.X); inner != "" {
+							ca = "(*" + inner + ")"
+						}
+					}
+				}
+				if ca == "" {
+					return lin{}, false
+				}
+				mapped := strings.Replace(base, par.Name(), ca, 1)
+				name := mapped + "@" + shortSSAFn(lp.fn)
+				if _, ok := lp.atomVal[name]; !ok {
+					lp.atomVal[name] = arg
+				}
+				return linAtom(name), true
+			}
+		}
+		return lin{}, false
+	}
+	var alts [][]lfact
+	for _, b := range callee.Blocks {
+		ret, ok := b.Instrs[len(b.Instrs)-1].(*ssa.Return)
+		if !ok || len(ret.Results) != 1 {
+			continue
+		}
+		paths := sub.pathFacts(b)
+		vias := sub.memoVia[b]
+		for di, d := range paths {
+			v := ret.Results[0]
+			if phi, isPhi := v.(*ssa.Phi); isPhi && phi.Block() == b {
+				if di < len(vias) && vias[di] >= 0 && vias[di] < len(phi.Edges) {
+					v = phi.Edges[vias[di]]
+				} else {
+					return nil
+				}
+			}
+			fs := append([]lfact{}, d...)
+			switch c := v.(type) {
+			case *ssa.Const:
+				if c.Value == nil || c.Value.Kind() != constant.Bool || constant.BoolVal(c.Value) != truth {
+					continue
+				}
+			default:
+				fs = append(fs, sub.condFacts(v, truth)...)
+			}
+			alts = append(alts, fs)
+		}
+	}
+	if len(alts) == 0 {
+		return nil
+	}
+	// facts common to every way of returning `truth`, mapped into the caller
+	count := map[string]int{}
+	by := map[string]lfact{}
+	for _, a := range alts {
+		seen := map[string]bool{}
+		for _, f := range a {
+			if !seen[f.String()] {
+				seen[f.String()] = true
+				count[f.String()]++
+				by[f.String()] = f
+			}
+		}
+	}
+	var out []lfact
+	for k, n := range count {
+		if n != len(alts) {
+			continue
+		}
+		f := by[k]
+		m := linConst(f.l.k)
+		ok := true
+		for a, cf := range f.l.c {
+			t, okm := mapAtom(a)
+			if !okm {
+				ok = false
+				break
+			}
+			m = m.add(t, cf)
+		}
+		if ok {
+			out = append(out, lfact{m, f.op})
+		}
+	}
+	return out
+}
+
+// entryFacts: for an unexported helper with exactly one first-party call site, what is known at that call
+// site (the caller's path facts) with the helper's integer/slice parameters equated to the arguments.
+func (lp *LenProver) entryFacts() [][]lfact {
+	if lp.depth > 0 || lp.noEntry || !lp.useEntry {
+		return nil
+	}
+	o, ok := lp.fn.Object().(*types.Func)
+	if !ok || token.IsExported(o.Name()) || lp.p.callSiteCounts()[o] != 1 {
+		return nil
+	}
+	// find the call site
+	var site *ssa.Call
+	for _, f := range lp.p.Fns {
+		if f.Pkg.Types != o.Pkg() || f.Parent != nil || f.Obj == nil {
+			continue
+		}
+		sf := lp.p.SSA.FuncValue(f.Obj)
+		if sf == nil {
+			continue
+		}
+		allInstrs(sf, true, func(ins ssa.Instruction) {
+			if call, ok := ins.(*ssa.Call); ok && call.Call.StaticCallee() == lp.fn {
+				site = call
+			}
+		})
+	}
+	if site == nil {
+		return nil
+	}
+	caller := NewLenProver(lp.p, site.Parent())
+	caller.noEntry = true
+	caller.depth = 1
+	var out [][]lfact
+	for _, d0 := range caller.pathFacts(site.Block()) {
+		d := caller.applyStores(append([]lfact{}, d0...), site.Block(), site)
+		for i, par := range lp.fn.Params {
+			if i >= len(site.Call.Args) {
+				break
+			}
+			switch {
+			case isIntType(par.Type()):
+				d = append(d, lfact{lp.term(par).add(caller.term(site.Call.Args[i]), -1), "eq"})
+			case isLenType(par.Type()):
+				d = append(d, lfact{lp.lenTerm(par).add(caller.lenTerm(site.Call.Args[i]), -1), "eq"})
+			}
+		}
+		d = append(d, caller.defs...)
+		out = append(out, d)
+	}
+	if len(out) == 0 || len(out) > 16 {
+		return nil
+	}
+	return out
+}
+
+// rebuildGoals recomputes the bound obligations of a sink instruction in another prover's term space.
+func rebuildGoals(lp *LenProver, ins ssa.Instruction) []lin {
+	switch x := ins.(type) {
+	case *ssa.Slice:
+		ln := lp.lenTerm(x.X)
+		lo := linConst(0)
+		if x.Low != nil {
+			lo = lp.term(x.Low)
+		}
+		hi := ln
+		if x.High != nil {
+			hi = lp.term(x.High)
+		}
+		return []lin{lo.scale(-1), lo.add(hi, -1), hi.add(ln, -1)}
+	case *ssa.IndexAddr:
+		ln, ix := lp.lenTerm(x.X), lp.term(x.Index)
+		return []lin{ix.scale(-1), ix.add(ln, -1).add(linConst(1), 1)}
+	case *ssa.Index:
+		ln, ix := lp.lenTerm(x.X), lp.term(x.Index)
+		return []lin{ix.scale(-1), ix.add(ln, -1).add(linConst(1), 1)}
+	}
+	return nil
 }
